@@ -119,125 +119,139 @@ func (p *Prog) foldDefaultZeroFields() {
 		}
 		return knownFn[p.FuncName(fn)]
 	}
-	// stores, per field
-	setByOld := map[*types.Var]bool{}
-	for _, fn := range p.Funcs {
-		eachInstr(fn, func(in ssa.Instruction) {
-			st, ok := in.(*ssa.Store)
-			if !ok {
-				return
-			}
-			fa, ok := st.Addr.(*ssa.FieldAddr)
-			if !ok || fieldOf(fa) == nil || !newField[fieldOf(fa)] {
-				return
-			}
-			if isOld(fn) {
-				setByOld[fieldOf(fa)] = true
-			}
-		})
-		// the address of the field handed somewhere (a decoder, a helper) may be written through
-		eachInstr(fn, func(in ssa.Instruction) {
-			fa, ok := in.(*ssa.FieldAddr)
-			if !ok || fieldOf(fa) == nil || !newField[fieldOf(fa)] {
-				return
-			}
-			if refs := fa.Referrers(); refs != nil {
-				for _, r := range *refs {
-					switch x := r.(type) {
-					case *ssa.Store:
-						if x.Addr != ssa.Value(fa) {
-							setByOld[fieldOf(fa)] = true
-						}
-					case *ssa.UnOp, *ssa.DebugRef:
-					default:
-						setByOld[fieldOf(fa)] = true
-					}
-				}
-			}
-		})
-	}
-	// a struct that is decoded into, copied from outside or built by reflection gets its fields without a
-	// Store we can see: only fields of structs whose old fields are all set by visible stores qualify — kept
-	// simple here: structs that are json-decoded are left alone
-	decoded := map[types.Type]bool{}
-	for _, fn := range p.Funcs {
-		for _, ci := range callsIn(fn) {
-			o := calleeObj(ci)
-			if isFunc(o, "encoding/json", "Unmarshal") || isMethod(o, "encoding/json", "Decoder", "Decode") {
-				args := ci.Common().Args
-				t := args[len(args)-1]
-				if mi, ok := t.(*ssa.MakeInterface); ok {
-					t = mi.X
-				}
-				var mark func(t types.Type, d int)
-				mark = func(t types.Type, d int) {
-					if t == nil || d > 8 || decoded[t] {
-						return
-					}
-					decoded[t] = true
-					switch x := t.Underlying().(type) {
-					case *types.Pointer:
-						mark(x.Elem(), d+1)
-					case *types.Slice:
-						mark(x.Elem(), d+1)
-					case *types.Map:
-						mark(x.Elem(), d+1)
-					case *types.Struct:
-						for i := 0; i < x.NumFields(); i++ {
-							mark(x.Field(i).Type(), d+1)
-						}
-					}
-				}
-				mark(t.Type(), 0)
-			}
-		}
-	}
 	folded := map[*types.Var]int{}
 	touched := map[*ssa.Function]bool{}
-	var ops [16]*ssa.Value
-	for _, fn := range p.Funcs {
-		for _, b := range fn.Blocks {
-			for _, in := range b.Instrs {
-				var f *types.Var
-				var holder types.Type
-				var val ssa.Value
-				switch x := in.(type) {
-				case *ssa.UnOp:
-					if x.Op != token.MUL {
-						continue
+	// to a fixed point: once Packer.modeMask reads as zero, `info.ModeMask = p.modeMask` in old code stores
+	// the zero value, which does not set UnpackInfo.ModeMask either
+	for round := 0; round < 4; round++ {
+		progress := false
+		// stores, per field
+		setByOld := map[*types.Var]bool{}
+		for _, fn := range p.Funcs {
+			eachInstr(fn, func(in ssa.Instruction) {
+				st, ok := in.(*ssa.Store)
+				if !ok {
+					return
+				}
+				fa, ok := st.Addr.(*ssa.FieldAddr)
+				if !ok || fieldOf(fa) == nil || !newField[fieldOf(fa)] {
+					return
+				}
+				if k, isC := st.Val.(*ssa.Const); isC {
+					if z := zeroConst(fieldOf(fa).Type()); z != nil && ((k.Value == nil && z.Value == nil) || (k.Value != nil && z.Value != nil && constant.Compare(k.Value, token.EQL, z.Value))) {
+						return // the zero value stored: nothing set
 					}
-					fa, ok := x.X.(*ssa.FieldAddr)
-					if !ok {
-						continue
-					}
-					f, holder, val = fieldOf(fa), derefType(fa.X.Type()), x
-				case *ssa.Field:
-					f, holder, val = fieldOf(x), x.X.Type(), x
-				default:
-					continue
 				}
-				if f == nil || !newField[f] || setByOld[f] || decoded[holder] {
-					continue
+				if isOld(fn) {
+					setByOld[fieldOf(fa)] = true
 				}
-				z := zeroConst(f.Type())
-				if z == nil {
-					continue
+			})
+			// the address of the field handed somewhere (a decoder, a helper) may be written through
+			eachInstr(fn, func(in ssa.Instruction) {
+				fa, ok := in.(*ssa.FieldAddr)
+				if !ok || fieldOf(fa) == nil || !newField[fieldOf(fa)] {
+					return
 				}
-				refs := val.Referrers()
-				if refs == nil || len(*refs) == 0 {
-					continue
-				}
-				for _, r := range *refs {
-					for _, op := range r.Operands(ops[:0]) {
-						if *op == val {
-							*op = z
+				if refs := fa.Referrers(); refs != nil {
+					for _, r := range *refs {
+						switch x := r.(type) {
+						case *ssa.Store:
+							if x.Addr != ssa.Value(fa) {
+								setByOld[fieldOf(fa)] = true
+							}
+						case *ssa.UnOp, *ssa.DebugRef:
+						default:
+							setByOld[fieldOf(fa)] = true
 						}
 					}
 				}
-				*refs = nil
-				folded[f]++
-				touched[fn] = true
+			})
+		}
+		// a struct that is decoded into, copied from outside or built by reflection gets its fields without a
+		// Store we can see: only fields of structs whose old fields are all set by visible stores qualify — kept
+		// simple here: structs that are json-decoded are left alone
+		decoded := map[types.Type]bool{}
+		for _, fn := range p.Funcs {
+			for _, ci := range callsIn(fn) {
+				o := calleeObj(ci)
+				if isFunc(o, "encoding/json", "Unmarshal") || isMethod(o, "encoding/json", "Decoder", "Decode") {
+					args := ci.Common().Args
+					t := args[len(args)-1]
+					if mi, ok := t.(*ssa.MakeInterface); ok {
+						t = mi.X
+					}
+					var mark func(t types.Type, d int)
+					mark = func(t types.Type, d int) {
+						if t == nil || d > 8 || decoded[t] {
+							return
+						}
+						decoded[t] = true
+						switch x := t.Underlying().(type) {
+						case *types.Pointer:
+							mark(x.Elem(), d+1)
+						case *types.Slice:
+							mark(x.Elem(), d+1)
+						case *types.Map:
+							mark(x.Elem(), d+1)
+						case *types.Struct:
+							for i := 0; i < x.NumFields(); i++ {
+								mark(x.Field(i).Type(), d+1)
+							}
+						}
+					}
+					mark(t.Type(), 0)
+				}
 			}
+		}
+		var ops [16]*ssa.Value
+		for _, fn := range p.Funcs {
+			for _, b := range fn.Blocks {
+				for _, in := range b.Instrs {
+					var f *types.Var
+					var holder types.Type
+					var val ssa.Value
+					switch x := in.(type) {
+					case *ssa.UnOp:
+						if x.Op != token.MUL {
+							continue
+						}
+						fa, ok := x.X.(*ssa.FieldAddr)
+						if !ok {
+							continue
+						}
+						f, holder, val = fieldOf(fa), derefType(fa.X.Type()), x
+					case *ssa.Field:
+						f, holder, val = fieldOf(x), x.X.Type(), x
+					default:
+						continue
+					}
+					if f == nil || !newField[f] || setByOld[f] || decoded[holder] {
+						continue
+					}
+					z := zeroConst(f.Type())
+					if z == nil {
+						continue
+					}
+					refs := val.Referrers()
+					if refs == nil || len(*refs) == 0 {
+						continue
+					}
+					for _, r := range *refs {
+						for _, op := range r.Operands(ops[:0]) {
+							if *op == val {
+								*op = z
+							}
+						}
+					}
+					*refs = nil
+					folded[f]++
+					touched[fn] = true
+					progress = true
+				}
+			}
+		}
+		if !progress {
+			break
 		}
 	}
 	if len(folded) == 0 {
